@@ -312,6 +312,11 @@ func (s *schemaBuilder) buildFromType(tpe types.Type, tgt swaggerTypable) error 
 	case *types.Interface:
 		return s.buildFromInterface(s.decl, titpe, tgt.Schema(), make(map[string]string))
 	case *types.Slice:
+		if eb, ok := titpe.Elem().(*types.Basic); ok && eb.Kind() == types.Uint8 {
+			// encoding/json sends a []byte as a base64 string
+			tgt.Typed("string", "byte")
+			return nil
+		}
 		return s.buildFromType(titpe.Elem(), tgt.Items())
 	case *types.Array:
 		return s.buildFromType(titpe.Elem(), tgt.Items())
